@@ -62,3 +62,78 @@ Proof.
 Qed.
 
 End CrossWrites.
+
+(* the same for FlacChannelWriter: one write of uniform channels *)
+Section CrossChannelWrites.
+Variable enc_block : N -> block -> res (list N).
+Variable p : profile.
+
+Theorem channel_write_is_sample_write e0 ch nb bs (chans : list (list Z)) m :
+  1 <= ch <= 8 -> 1 <= bs -> si_channels (e_si e0) = ch ->
+  length chans = N.to_nat ch -> Forall (fun c => length c = m) chans ->
+  let wc := {| cw_enc := e0; cw_bufs := repeat [] (N.to_nat ch); cw_channels := ch; cw_frame_sample_size := bs; cw_bytes_per_sample := nb |} in
+  let ws := {| sw_enc := e0; sw_buf := []; sw_channels := ch; sw_frame_sample_size := ch * bs; sw_bytes_per_sample := nb |} in
+  rmap cw_enc (channel_write enc_block p wc chans) = rmap sw_enc (sample_write enc_block p ws (concat (multizip chans))).
+Proof.
+  intros Hch Hbs Hsi Lc U wc ws.
+  set (n := N.to_nat ch) in *. set (k := N.to_nat bs).
+  assert (Hn : (1 <= n)%nat) by (unfold n; lia). assert (Hk : (1 <= k)%nat) by (unfold k; lia).
+  assert (Hne : chans <> []) by (intros ->; cbn in Lc; lia).
+  unfold channel_write, sample_write. cbn [wc ws cw_enc cw_bufs cw_channels cw_frame_sample_size cw_bytes_per_sample
+                                           sw_buf sw_frame_sample_size sw_enc sw_channels sw_bytes_per_sample app].
+  destruct chans as [|first rest0] eqn:Ech; [congruence|]. rewrite <- Ech in *.
+  rewrite Lc, Hsi. unfold n at 1. rewrite N2Nat.id, N.eqb_refl.
+  assert (Hex : existsb (fun c : list Z => negb (length c =? length first)%nat) rest0 = false).
+  { rewrite Ech in U. apply Forall_cons_iff in U. destruct U as [A B].
+    destruct (existsb _ rest0) eqn:Ex; [|reflexivity]. apply existsb_exists in Ex. destruct Ex as (c & Hc & Hl).
+    rewrite Forall_forall in B. rewrite (B c Hc), A, Nat.eqb_refl in Hl. discriminate. }
+  rewrite Hex.
+  assert (Ezn : zip_app (repeat [] n) chans = chans).
+  { rewrite zip_app_nils; [reflexivity| |rewrite repeat_length; lia]. apply Forall_forall. intros x Hx. apply repeat_spec in Hx. subst x. reflexivity. }
+  rewrite Ezn.
+  destruct (N.eqb_spec bs 0); [lia|]. destruct (N.eqb_spec (ch * bs) 0); [nia|].
+  fold k. set (ks := N.to_nat (ch * bs)). assert (Hks : ks = (n * k)%nat) by (unfold ks, n, k; rewrite N2Nat.inj_mul; reflexivity).
+  destruct (cdrain k chans) as [blocks rest] eqn:Ed.
+  destruct (cdrain_spec k ltac:(lia) chans blocks rest Hne Ed) as (Est & Fsh & Lrest & Hshort). rewrite Lc in Fsh, Lrest.
+  (* rest is uniform of length r < k, and m = k * #blocks + r *)
+  assert (Hr : exists r, Forall (fun c => length c = r) rest /\ (r < k)%nat /\ m = (k * length blocks + r)%nat).
+  { assert (G : forall bl rs mm, Forall (shaped k n) bl -> length rs = n -> Forall (fun c => length c = mm) (stack bl rs) ->
+              Forall (fun c => length c = (mm - k * length bl)%nat) rs /\ (k * length bl <= mm)%nat).
+    { clear - Hn. induction bl as [|b bl IH]; intros rs mm F Lr Us; cbn [stack fold_right length] in *.
+      - rewrite Nat.mul_0_r, Nat.sub_0_r. split; [exact Us|lia].
+      - fold (stack bl rs) in Us. apply Forall_cons_iff in F. destruct F as [[Lb Fb] F].
+        assert (Ls : length (stack bl rs) = n) by (apply stack_length; [eapply shaped_len; eauto|exact Lr]).
+        assert (Hsplit : Forall (fun c => length c = (mm - k)%nat) (stack bl rs) /\ (k <= mm)%nat).
+        { apply (zip_app_uniform_split b (stack bl rs) k mm); [lia|intros ->; cbn in Lb; lia|exact Fb|exact Us]. }
+        destruct Hsplit as [U' Hle]. destruct (IH rs (mm - k)%nat F Lr U') as [A B].
+        split; [|lia]. eapply Forall_impl; [|exact A]. intros c Hc. cbn beta in Hc. rewrite Hc. lia. }
+    rewrite Est in U. destruct (G blocks rest m Fsh Lrest U) as [A B].
+    exists (m - k * length blocks)%nat. split; [exact A|]. split; [|clear - B; unfold block in *; lia].
+    unfold has_short in Hshort. apply existsb_exists in Hshort. destruct Hshort as (c & Hc & Hl). apply Nat.ltb_lt in Hl.
+    rewrite Forall_forall in A. rewrite (A c Hc) in Hl. exact Hl. }
+  destruct Hr as (r & Urest & Hrk & Hm). unfold block in *.
+  (* the interleaved samples: the blocks' PCM frames, then the rest's *)
+  assert (Eint : concat (multizip chans) = concat (map (fun b => concat (multizip b)) blocks) ++ concat (multizip_fuel r rest)).
+  { rewrite (multizip_uniform chans m Hne U), Hm. rewrite Est at 1.
+    rewrite (interleave_stack k n Hn blocks rest r Fsh Lrest Urest), concat_app. f_equal.
+    rewrite concat_concat_map. f_equal. apply map_ext_in. intros b Hb. rewrite Forall_forall in Fsh. destruct (Fsh b Hb) as [Lb Fb].
+    rewrite (multizip_uniform b k); [reflexivity|intros ->; cbn in Lb; lia|exact Fb]. }
+  assert (Hrest_ne : rest <> []) by (intros ->; cbn in Lrest; lia).
+  assert (Eir : concat (multizip_fuel r rest) = concat (multizip rest)) by (rewrite (multizip_uniform rest r Hrest_ne Urest); reflexivity).
+  (* lengths *)
+  assert (Lblk : Forall (fun x => length x = ks) (map (fun b => concat (multizip b)) blocks)).
+  { apply Forall_forall. intros x Hx. apply in_map_iff in Hx. destruct Hx as (b & <- & Hb). rewrite Forall_forall in Fsh. destruct (Fsh b Hb) as [Lb Fb].
+    assert (Hbne : b <> []) by (intros ->; cbn in Lb; lia).
+    rewrite (multizip_uniform b k Hbne Fb). destruct (channels_of_multizip_fuel k b Hbne Fb) as (_ & Fl & Lm).
+    rewrite (concat_length_uniform (length b)) by exact Fl. rewrite Lm, Lb, Hks. lia. }
+  assert (Lir : length (concat (multizip_fuel r rest)) = (n * r)%nat).
+  { destruct (channels_of_multizip_fuel r rest Hrest_ne Urest) as (_ & Fl & Lm).
+    rewrite (concat_length_uniform (length rest)) by exact Fl. rewrite Lm, Lrest. lia. }
+  assert (Eds : drain ks (concat (multizip chans)) = (map (fun b => concat (multizip b)) blocks, concat (multizip_fuel r rest))).
+  { rewrite Eint. apply drain_unique; [nia|exact Lblk|rewrite Lir, Hks; nia]. }
+  rewrite Eds.
+  pose proof (fold_channels_as_samples enc_block p ch nb k Hch Hk blocks e0 Fsh) as Ef. unfold block in Ef. rewrite Ef. clear Ef.
+  destruct (fold_res (sample_encode_chunk enc_block p ch nb) e0 (map (fun b => concat (multizip b)) blocks)) as [e1| |]; reflexivity.
+Qed.
+
+End CrossChannelWrites.
